@@ -50,7 +50,9 @@ type ChildSpec struct {
 	DieDelayMs    int    `json:"die_delay_ms,omitempty"`  // delay between the fatal request and the death
 	HangGetState  bool   `json:"hang_getstate,omitempty"` // after the idle state was reported once GetState never answers, the first such call is fatal
 	Wrap          bool   `json:"wrap,omitempty"`          // the task leader is a wrapper; the device is its child and SURVIVES the wrapper's death, keeping the connection open
-	User          bool   `json:"user,omitempty"`          // the command info names a user (the current one): prepareTaskCmd's credential branch
+	SlowOn        string `json:"slow_on,omitempty"`       // this device step takes SlowMs and is then performed normally
+	SlowMs        int    `json:"slow_ms,omitempty"`
+	User          bool   `json:"user,omitempty"` // the command info names a user (the current one): prepareTaskCmd's credential branch
 	BadCommand    bool   `json:"bad_command,omitempty"`
 	Noise         bool   `json:"noise,omitempty"`
 }
@@ -64,6 +66,8 @@ type Step struct {
 	What  string `json:"what,omitempty"`  // await: ready | terminal | child-started
 	N     int    `json:"n,omitempty"`     // await terminal/child-started: how many
 	Async bool   `json:"async,omitempty"` // do not wait for the op to return before the next step
+	// C16B: the transition whose answer is compared with the device's real state
+	Judged bool `json:"judged,omitempty"`
 	// storm: transition requests with a payload of PayloadKB (arguments map) fired in the background
 	// at these offsets (ms from the step), each through UnmarshalTransition + Transition like any other
 	Offsets   []int `json:"offsets,omitempty"`
@@ -71,6 +75,7 @@ type Step struct {
 }
 
 type Case struct {
+	Prop     string    `json:"prop,omitempty"` // "" = C17, "C16B"
 	Idx      int       `json:"idx"`
 	Kind     string    `json:"kind"` // basic hook direct fairmq
 	Scenario string    `json:"scenario"`
@@ -540,6 +545,49 @@ func ctlTemplates(kind string) []template {
 	return ts
 }
 
+// C16B ---------------------------------------------------------------------------
+// One device step takes longer than any timeout the executor might apply (TRANSITION_TIMEOUT is
+// 10 s) and is then performed normally: nothing fails, the device reaches the destination. The
+// answer of the executor to that request is compared with the state the device really is in.
+
+func c16bTemplates() []template {
+	type t5 struct {
+		kind, name, slow string
+		pre              []Step
+		judged           Step
+	}
+	list := []t5{
+		{"fairmq", "configure-slow-init-task", "INIT TASK", nil, stCONFIGURE},
+		{"fairmq", "configure-slow-connect", "CONNECT", nil, stCONFIGURE},
+		{"direct", "configure-slow", "CONFIGURE", nil, stCONFIGURE},
+		{"fairmq", "reset-slow-reset-device", "RESET DEVICE", []Step{stCONFIGURE}, stRESET},
+		{"direct", "start-slow", "START", []Step{stCONFIGURE}, stSTART},
+	}
+	var ts []template
+	for _, e := range list {
+		e := e
+		ts = append(ts, template{e.kind, e.name, "slow-" + e.slow, func(r *rand.Rand, c *Case) {
+			c.Child.TermExit = -1
+			c.Child.SlowOn = e.slow
+			c.Child.SlowMs = u(r, 11000, 13000)
+			c.Child.ReadyAfterMs = u(r, 0, 300)
+			j := e.judged
+			j.Judged = true
+			c.Steps = []Step{stLAUNCH, await("ready", 1, 15000)}
+			c.Steps = append(c.Steps, e.pre...)
+			c.Steps = append(c.Steps, sleepStep(u(r, 0, 200)), j, Step{Op: "await-quiescent", Ms: 40000}, stKILL)
+		}})
+	}
+	return ts
+}
+
+func templatesFor(prop string) []template {
+	if prop == "C16B" {
+		return c16bTemplates()
+	}
+	return allTemplates()
+}
+
 func allTemplates() []template {
 	var ts []template
 	ts = append(ts, basicTemplates()...)
@@ -550,10 +598,13 @@ func allTemplates() []template {
 }
 
 // makeCase builds case idx deterministically from the PRNG.
-func makeCase(idx int, r *rand.Rand) *Case {
-	ts := allTemplates()
+func makeCase(prop string, idx int, r *rand.Rand) *Case {
+	ts := templatesFor(prop)
 	t := ts[idx%len(ts)]
-	c := &Case{Idx: idx, Kind: t.kind, Scenario: t.scenario, Variant: t.variant, ObserveMs: 900}
+	if prop == "C17" {
+		prop = ""
+	}
+	c := &Case{Prop: prop, Idx: idx, Kind: t.kind, Scenario: t.scenario, Variant: t.variant, ObserveMs: 900}
 	c.Child.TermExit = -1
 	secondary(r, c)
 	t.build(r, c)
